@@ -64,7 +64,9 @@ def gen_script(rnd, long=False):
                     ops.append(["net", "refuse", 0.0])
         elif c < 0.86:
             ops.append(["net", rnd.choice(["refuse", "accept"]), rnd.choice([0.0, 0.3, 2.5])])
-        elif c < 0.92:
+        elif c < 0.89:
+            ops.append(["on_connect_send", rnd.choice(S.KINDS), rnd.choice(["idem", "long"])])
+        elif c < 0.93:
             ops.append(["stall"])
             for _ in range(rnd.randint(1, 3)):
                 ops.append(["send", rnd.choice(S.KINDS), "idem", rnd.choice(["t1", "t2", "t3"])])
@@ -91,6 +93,12 @@ def directed():
             ops = [["q"]] + [["send", S.KINDS[i % 3], pols[i % len(pols)],
                               "inline" if i % 2 else "t1"] for i in range(n)]
             out.append(ops)
+    # a message submitted from inside the connected notification, with others already queued
+    for n in (0, 1, 3):
+        out.append([["net", "refuse", 0.0]] + [["send", S.KINDS[i % 3], "long", "inline"]
+                                               for i in range(n)]
+                   + [["on_connect_send", "quick_timer", "idem"], ["adv", 3.0],
+                      ["send", "ac_ctrl", "idem", "inline"]])
     # expiry straddling: lifetime 0.5 / 1.0 vs reconnection after 2 s
     for pol, L in (("short", 0.5), ("conn", 1.0), ("idem", 30.0)):
         for d in (L - 1e-3, L - EPS, L, L + EPS, L + 1e-3):
